@@ -107,7 +107,20 @@ func seqProgram(r *ev.Run, id string, i int) {
 	}))
 	cores := []zapcore.Core{s, s.With([]zapcore.Field{zap.Int("w", 1)}), s.With([]zapcore.Field{zap.Int("w", 2)}).With([]zapcore.Field{zap.Int("w", 3)})}
 	md := &model{n: uint64(n), m: uint64(m), tick: int64(tick), state: map[key]*window{}}
-	msgs := []string{"alpha", "beta", colliding("alpha"), "gamma"}
+	// message alphabets: ASCII, non-ASCII text, and binary / invalid UTF-8 (the bucket is the
+	// byte-wise FNV-1a the source documents, whatever the bytes are)
+	var msgs []string
+	switch g.Intn(3) {
+	case 0:
+		msgs = []string{"alpha", "beta", colliding("alpha"), "gamma"}
+		r.Count("programs_ascii_messages", 1)
+	case 1:
+		msgs = []string{"requête é", "日本語のメッセージ", colliding("requête é"), "réponse ü"}
+		r.Count("programs_non_ascii_messages", 1)
+	default:
+		msgs = []string{"payload \x80", "\xff", colliding("payload \x80"), "\xfe", "payload \x81", "\xc3"}
+		r.Count("programs_binary_messages", 1)
+	}
 	levels := []zapcore.Level{zapcore.DebugLevel, zapcore.InfoLevel, zapcore.ErrorLevel}
 	r.SetAdd("n_m_tick", fmt.Sprintf("%d/%d/%v", n, m, tick))
 	steps := g.Range(40, 400)
